@@ -22,7 +22,7 @@ func init() {
 			"schedule and kubernetes bindings before events and ticks are consumed; (R5) a task is placed in the queue named by its " +
 			"binding's configured queue (config -> link -> execution info -> task) with AddLast; (R6) the default queue is \"main\"; " +
 			"(R7) items/Queues only under their mutex; (R8) no mutex of the queue set / queues is re-acquired while held (self-deadlock " +
-			"with a waiting writer stalls every queue). NOT decided: wall-clock non-overlap (follows from R1-R3 under Go's semantics of " +
+			"with a waiting writer stalls every queue). (R9) tasks handed back in a TaskResult carry the name of the queue that runs the handler; (R10) buffered events are replayed in arrival order inside the critical section that flips the flag. NOT decided: wall-clock non-overlap (follows from R1-R3 under Go's semantics of " +
 			"one goroutine), rate limiter shared by two queues of one hook.",
 		Run: runC03,
 	})
@@ -311,9 +311,8 @@ func runC03(c *eng.Ctx) {
 	// ---- R9 tasks handed back in a TaskResult are inserted by the worker into the queue that runs the handler; the
 	// handlers look up "their" queue by the task's own queue name (combining, Filter), so such tasks must carry the
 	// name of the queue they are inserted into
-	r9 := c.Rule("C03.R9", "D:provenance", "tasks returned as HeadTasks/TailTasks/AfterTasks carry the name of the queue that executes the handler (the literal main queue name or t.GetQueueName())", 1)
+	r9 := c.Rule("C03.R9", "D:provenance", "tasks returned as HeadTasks/TailTasks/AfterTasks carry the name of the queue that executes the handler (the enable task runs in the main queue, whose name is the literal \"main\")", 1)
 	withQN := p.Method(pkgTask, "BaseTask", "WithQueueName")
-	getQN := p.Method(pkgTask, "Task", "GetQueueName")
 	nres := 0
 	for _, fld := range []string{"HeadTasks", "TailTasks", "AfterTasks"} {
 		rf := p.Field(pkgQueue, "TaskResult", fld)
@@ -339,11 +338,6 @@ func runC03(c *eng.Ctx) {
 					if v, isC := eng.ConstStr(info, call.Args[0]); isC && v == "main" {
 						okOne = true
 					}
-					if cl, isCl := ast.Unparen(call.Args[0]).(*ast.CallExpr); isCl && eng.CalleeOf(info, cl) == getQN {
-						if s, isS := ast.Unparen(cl.Fun).(*ast.SelectorExpr); isS && isParamOfFunc(f, eng.SelObj(info, s.X)) {
-							okOne = true
-						}
-					}
 				}
 				if !okOne {
 					okAll = false
@@ -354,7 +348,7 @@ func runC03(c *eng.Ctx) {
 			if bad != nil {
 				pos = bad.Pos()
 			}
-			r9.Check(okAll, f.Key+" result tasks name the executing queue ("+fld+")", pos, "WithQueueName(\"main\") / WithQueueName(t.GetQueueName())",
+			r9.Check(okAll, f.Key+" result tasks name the executing queue ("+fld+")", pos, "WithQueueName(\"main\")",
 				"a task that the worker inserts into the queue running this handler is labelled with another queue's name: when it runs, combining and Filter operate on that other queue - its tasks (including the one its own worker is executing) are merged and deleted from a foreign goroutine, executions of that queue overlap and leave head-first order")
 		}
 	}
